@@ -5,8 +5,8 @@ Import ListNotations.
 
 Definition byte := nat.
 Inductive esc := ENone | ESlash | EQuote (q : byte).
-(* u8::is_ascii_whitespace: space, \t, \n, \x0C, \r (not \x0B) *)
-Definition is_ws (c : byte) : bool := (c =? 32) || (c =? 9) || (c =? 10) || (c =? 12) || (c =? 13).
+(* the separators of default mode: blank (space, tab) and newline *)
+Definition is_ws (c : byte) : bool := (c =? 32) || (c =? 9) || (c =? 10).
 Definition is_quote (c : byte) : bool := (c =? 34) || (c =? 39).
 Definition nonempty {A} (l : list A) := match l with [] => false | _ => true end.
 
@@ -14,7 +14,7 @@ Inductive scan_res :=
 | Done (tok : list byte) (hard : bool) (rest : list byte)
 | NeedMore (e : esc) (acc : list byte) (inarg : bool).
 
-(* the match over (escape, pending[i]) over one buffer; [ia] is in_argument *)
+(* the match over (escape, pending[i]) over one buffer; [ia] is in_argument: a quote was opened or a byte was pushed *)
 Fixpoint scan (e : esc) (acc : list byte) (ia : bool) (buf : list byte) : scan_res :=
   match buf with
   | [] => NeedMore e acc ia
@@ -24,8 +24,8 @@ Fixpoint scan (e : esc) (acc : list byte) (ia : bool) (buf : list byte) : scan_r
       | ESlash => scan ENone (acc ++ [c]) true buf'
       | ENone =>
           if is_quote c then scan (EQuote c) acc true buf'
-          else if c =? 92 then scan ESlash acc true buf'
-          else if is_ws c then (if nonempty acc then Done acc (c =? 10) buf' else scan ENone acc ia buf')
+          else if c =? 92 then scan ESlash acc ia buf'
+          else if is_ws c then (if ia then Done acc (c =? 10) buf' else scan ENone acc ia buf')
           else scan ENone (acc ++ [c]) true buf'
       end
   end.
